@@ -105,13 +105,15 @@ func TestC11(t *testing.T) {
 	var lastSig string
 	var lastNontriv bool
 	c := Campaign{
-		Prop: "C11",
-		Rule: "phase 1: rapid builds a reachable backlog with a generated workload (promises with short time-outs, routed promises and registrations => tasks, claims with short leases, locks, schedules whose period exceeds the signal timeout) on a kernel without background work; the clock jumps ahead; phase 2: the kernel restarts with all five background coroutines and a drawn configuration (every knob in its documented range incl. batch sizes 1 and coroutine pool 1), no client requests, a finite drawn failure phase (store/router/hand-off failures, optional crash), then failures stop. A cycle = clock + signal timeout, ticks until nothing is in flight. Oracle: within B = ceil(backlog_k/batch_k) summed + catch-up occurrences + slack cycles the five quiescence predicates of the statement hold and keep holding; no task stays dispatchable for more than its bound of consecutive cycles; every cycle's background work settles. Non-trivial: backlog exceeds a batch size in >=1 dimension, or the coroutine pool is smaller than the number of background coroutines.",
+		Prop:  "C11",
+		Rule:  "phase 1: rapid builds a reachable backlog with a generated workload (promises with short time-outs, routed promises and registrations => tasks, claims with short leases, locks, schedules whose period exceeds the signal timeout) on a kernel without background work; the clock jumps ahead; phase 2: the kernel restarts with all five background coroutines and a drawn configuration (every knob in its documented range incl. batch sizes 1 and coroutine pool 1), no client requests, a finite drawn failure phase (store/router/hand-off failures, optional crash), then failures stop. A cycle = clock + signal timeout, ticks until nothing is in flight. Oracle: within B = ceil(backlog_k/batch_k) summed + catch-up occurrences + slack cycles the five quiescence predicates of the statement hold and keep holding; no task stays dispatchable for more than its bound of consecutive cycles; every cycle's background work settles. Non-trivial: backlog exceeds a batch size in >=1 dimension, or the coroutine pool is smaller than the number of background coroutines.",
 		Fatal: []string{"C11"},
 	}
 	c.Custom = func(d D, dir string) (*Sim, []Violation) {
 		var vs []Violation
-		add := func(code, key, f string, a ...any) { vs = append(vs, Violation{"C11", code, key, fmt.Sprintf(f, a...)}) }
+		add := func(code, key, f string, a ...any) {
+			vs = append(vs, Violation{"C11", code, key, fmt.Sprintf(f, a...)})
+		}
 		// ---- phase 1: backlog ----
 		g := DefaultGen(d)
 		g.Pids = []string{"p1", "p2", "p3", "p4", "r"}
